@@ -43,9 +43,14 @@ def check(case: dict):
         else:
             ds = MazeDataset.generate(cfg, gen_parallel=True, pool_kwargs={"processes": case["procs"]})
     except ValueError as e:
-        if any(s in str(e) for s in _DOC_ERR):
+        ep0 = spec.get("endpoint", {})
+        # a default-argument tree generator yields a spanning tree (>= 2 leaves on every grid of >= 2 cells): without allowed-cell lists
+        # every endpoint option can be met, so a refusal there is not the documented "cannot satisfy" outcome
+        always_satisfiable = (spec["ctor"] in ("gen_dfs", "gen_wilson", "gen_prim") and not spec.get("kwargs") and n >= 2
+                              and ep0.get("allowed_start") is None and ep0.get("allowed_end") is None)
+        if any(s in str(e) for s in _DOC_ERR) and not always_satisfiable:
             raise Discard() from e
-        raise Violation(f"C03:{mode}:raises:ValueError", str(e)[:300]) from e
+        raise Violation(f"C03:{mode}:raises:ValueError", f"{str(e)[:200]}; spec={spec}") from e
     except Exception as e:  # noqa: BLE001
         raise Violation(f"C03:{mode}:raises:{type(e).__name__}", f"{str(e)[:300]}; spec={spec}") from e
     sig = f"C03:{mode}"
@@ -127,6 +132,10 @@ def _case(draw, n_hi, mazes_hi, modes, max_procs):
         spec["n_mazes"] = draw(st.sampled_from([13, 16, 17, 23, 31, 32, 33, 37, 50, 64, 65, 100, 101] if spec["grid_n"] <= 4 else [13, 16, 17, 23, 33]))
         if "endpoint" in spec:
             spec["endpoint"] = {k: v for k, v in spec["endpoint"].items() if k in ("deadend_start", "deadend_end", "endpoints_not_equal")}
+        if mode == "parallel":
+            # a worker that raises while many tasks are still queued can dead-lock multiprocessing.Pool.terminate() (CPython, not the
+            # library): long parallel runs therefore use configurations that can always be satisfied (default tree generators)
+            spec["ctor"], spec["kwargs"] = draw(st.sampled_from(["gen_dfs", "gen_wilson", "gen_prim"])), {}
     case = {"spec": spec, "mode": mode}
     if mode == "parallel":
         case["procs"] = draw(st.integers(1, max_procs))
@@ -253,5 +262,5 @@ def subs(tier: str):
         Sub("endpoint-draws", check_draws, "hypothesis", strategy=lambda: _draws(7 if q else 12), examples=150 if q else 3000),
         Sub("grids-beyond-128", check, "exhaustive", cases=_large_cases(6 if q else 24)),
         Sub("parallel-inner", check, "hypothesis", strategy=lambda: _case(6 if q else 10, 12, ["parallel"], 4 if q else 8), examples=50, shards=1, hidden=True),
-        Sub("parallel", check, "custom", run=core.hypothesis_in_fresh_interpreters("C03", tier, "parallel-inner", "parallel", 50 if q else 500, 50 if q else 100, 900)),
+        Sub("parallel", check, "custom", run=core.hypothesis_in_fresh_interpreters("C03", tier, "parallel-inner", "parallel", 50 if q else 500, 25 if q else 100, 240 if q else 900)),
     ]
